@@ -2,6 +2,8 @@
 import os, re, math
 import numpy as np
 
+from hypothesis import strategies as st
+
 from .. import core
 from ..core import CaseResult, Profile
 from .. import scenario as sc, clauses as cl
@@ -26,6 +28,19 @@ if len(DOC_COLS) < 15:
 
 PROF = sc.make_prof(fams=["lin", "sinlin", "rosen", "hashed", "hashed", "script"], diag=1.0, reg=0.06, zero_resid=0.05,
                     maxfuns=["npt+1", 10, 30, 60, 150, 150])
+
+
+@st.composite
+def cases(draw):
+    """The shared scenarios plus, in 4% of the cases, 'far target' problems (r = x - c with c about 1e11 away, or rhobeg of order
+    1e9): every step is very successful and full length, so delta doubles/quadruples until the documented 1e10 ceiling binds."""
+    if draw(st.integers(0, 24)) == 0:
+        n = draw(st.integers(1, 2))
+        c = [draw(st.sampled_from([-2.0, 1.0, 3.0])) * 1e11 for _ in range(n)]
+        return {"n": n, "m": n, "fam": "lin", "A": np.eye(n).tolist(), "b": c, "x0": [0.0] * n, "lower": None, "upper": None, "scaling": False,
+                "npt": n + 1, "rhobeg": draw(st.sampled_from([None, 1.0, 4e9])), "rhoend": 1e-8, "maxfun": draw(st.sampled_from([40, 80])),
+                "up": {"logging.save_diagnostic_info": True, "logging.save_poisedness": False}, "np_seed": 0, "tags": ["far-target"]}
+    return draw(sc.scenarios(PROF))
 
 
 def run(case):
@@ -119,5 +134,5 @@ def run(case):
     return res
 
 
-PROFILES = {"solve": Profile("solve", lambda: sc.scenarios(PROF), run, quick=4000, thorough=100000, timeout=120)}
+PROFILES = {"solve": Profile("solve", cases, run, quick=4000, thorough=100000, timeout=120)}
 KNOWN = {}
